@@ -37,7 +37,8 @@ def _case(draw, tier):
     cfg = Cfg(profile="falsy" if "falsy_values" not in avoid else "clean", pool=(2, 6), noise=False)
     recs = draw_dataset(draw, cfg)
     n = len(recs)
-    inner = draw(st.sampled_from(["kids", "kids", "kids", "tags", "a", "s", "o", "o"]))
+    # ("rows": concatenate(flatten(p.rows())) - the flattened elements are collections themselves)
+    inner = draw(st.sampled_from(["kids", "kids", "kids", "tags", "a", "s", "o", "o", "rows"]))
     if inner == "kids" and chance(draw, 1, 3):
         r = recs[draw(st.integers(0, n - 1))]
         if r["kids"]:
@@ -74,7 +75,14 @@ def strategy(tier):
     return _case(tier)
 
 
+def _expr(v0, inner):
+    from entity_query_language import flatten
+    return flatten(v0.rows()) if inner == "rows" else getattr(v0, inner)
+
+
 def _inner(p, inner):
+    if inner == "rows":
+        return [x for row in p.rows() for x in row]
     v = getattr(p, inner)
     if hasattr(v, "__iter__") and not isinstance(v, (str, bytes)):
         return list(v)
@@ -126,7 +134,7 @@ def check(case) -> Outcome:
         V, _ = declare_vars(case, objs)
         story = case.get("shared_with_condition_query")
         with symbolic_mode():
-            f_ = getattr(V[0], case["inner"])
+            f_ = _expr(V[0], case["inner"])
             cq = an(entity(V[0], f_)) if story and story["built"] == "before" else None
             c = concatenate(f_)
             q = an(entity(c)) if case.get("select_form", "entity") == "entity" else an(set_of([c]))
@@ -168,7 +176,7 @@ def check(case) -> Outcome:
     try:
         V, _ = declare_vars(case, objs)
         with symbolic_mode():
-            c = concatenate(getattr(V[0], case["inner"]))
+            c = concatenate(_expr(V[0], case["inner"]))
             d = V[1]
             item = d if ot == "var" else getattr(d, ot)
             cond = in_(item, c) if case["form"] == "in_" else contains(c, item)
